@@ -46,3 +46,7 @@ Theorem C09_claim_never_overwrites : forall ns nm f nm' ns',
   alookup fname_eqb nm' ns = None /\ ns' = ns ++ [(nm', f)].
 Proof. exact claim_fresh. Qed.
 Print Assumptions C09_claim_never_overwrites.
+
+(* ---- source pins: the functions whose hand-written model carries the theorems above are still, textually (after
+   ast normalisation), the functions the model was validated against; an edit breaks Bridge/Pins_C09.v ---- *)
+From KV Require Bridge.Pins_C09.
